@@ -59,6 +59,29 @@ type RecoverResp struct {
 	WriteErrs     map[int]string `json:"write_errs,omitempty"`
 	FinalComplete bool           `json:"final_complete"`
 	CacheFinal    *Cache         `json:"cache_final,omitempty"`
+
+	Epilogue Epilogue `json:"epilogue"`
+}
+
+// Epilogue is the "evict and download again" phase: after the recovered agent
+// has completed the download, the torrent is deleted through
+// TorrentArchive.DeleteTorrent (what cache eviction / TTL clean-up do) and
+// requested again. Leftovers of the crash must not poison the new download.
+type Epilogue struct {
+	Ran              bool           `json:"ran"`
+	DeleteErr        string         `json:"delete_err,omitempty"`
+	CacheAfterDelete *Cache         `json:"cache_after_delete,omitempty"`
+	CreateErrs       []string       `json:"create_errs"`
+	Created          bool           `json:"created"`
+	Complete         bool           `json:"complete"` // right after CreateTorrent
+	NumPieces        int            `json:"num_pieces"`
+	Bits             []int          `json:"bits"`
+	Pieces           map[int][]byte `json:"pieces"`
+	PieceErrs        map[int]string `json:"piece_errs,omitempty"`
+	CacheAfter       *Cache         `json:"cache_after,omitempty"`
+	WriteErrs        map[int]string `json:"write_errs,omitempty"`
+	FinalComplete    bool           `json:"final_complete"`
+	CacheFinal       *Cache         `json:"cache_final,omitempty"`
 }
 
 // Cache is the cache-state file of the blob, if any.
